@@ -114,13 +114,56 @@ def build_dist(rng: random.Random) -> Any:
 
 
 def build_ladder(depth: int, rng: random.Random) -> Any:
+    """Ladders whose path count is 2**depth; the two rails reconverge through a chosen kind
+    of edge (operand, index array, stack/concatenate operand, einsum operand, where
+    condition, shape component, call binding, CSR part)."""
     import pytato as pt
+    kind = rng.choice(["operand", "operand", "index", "stack", "einsum", "where", "call", "csr",
+                       "roll"])
+    if kind == "operand":
+        x = pt.make_placeholder("x", (3,), np.float64)
+        y = pt.make_placeholder("y", (3,), np.float64)
+        a, b = x, y
+        for i in range(depth):
+            a, b = (a + b, a * b) if i % 2 == 0 else (a - b, a + 2 * b)
+        return pt.make_dict_of_named_arrays({"out": a + b})
+    if kind == "index":
+        x = pt.make_placeholder("x", (4,), np.int64)
+        for _ in range(depth):
+            x = x[x % 4]                      # array edge and index edge lead to x
+        return pt.make_dict_of_named_arrays({"out": x})
     x = pt.make_placeholder("x", (3,), np.float64)
-    y = pt.make_placeholder("y", (3,), np.float64)
-    a, b = x, y
+    depth = min(depth, 30)
+    if kind == "csr":
+        from pytato.array import make_csr_matrix
+        ev = pt.make_placeholder("ev", (3,), np.float64)
+        for _ in range(min(depth, 12)):
+            m = make_csr_matrix((3, 3), x * ev, pt.make_placeholder("ci", (3,), np.int64),
+                                pt.make_placeholder("rs", (4,), np.int64))
+            x = m @ x                          # CSR part edge and operand edge lead to x
+        return pt.make_dict_of_named_arrays({"out": x})
+    if kind in ("stack", "einsum"):
+        # .dtype / .shape of stack, concatenate and einsum nodes are recomputed from the
+        # operands on every access (no memo): 2**depth on these ladders, in ANY code that
+        # reads them -- an observation outside C13 (DESIGN.md 10.7); keep them shallow
+        depth = min(depth, 12)
     for i in range(depth):
-        a, b = (a + b, a * b) if i % 2 == 0 else (a - b, a + 2 * b)
-    return pt.make_dict_of_named_arrays({"out": a + b})
+        if kind == "stack":
+            x = (pt.stack([x, x]) if i % 2 == 0 else pt.concatenate([x, x]).reshape(2, 3))[0]
+        elif kind == "einsum":
+            x = pt.einsum("i,i->i", x, x)
+        elif kind == "where":
+            x = pt.where(pt.greater(x, 0), x, -x)
+        elif kind == "roll":
+            x = pt.roll(x, 1) + x[::-1]
+        elif kind == "call":
+            def f(a: Any, b: Any) -> Any:
+                return a + 2 * b
+            if i >= 6:
+                x = x + x
+            else:
+                x = pt.trace_call(f, x, x)
+    return pt.make_dict_of_named_arrays({"out": x})
 
 
 def build_edges(rng: random.Random) -> Any:
